@@ -79,6 +79,9 @@ Temporal ==
     E("dt", "ny_fold_std", <<14, 2021, 11, 7, 1, 30, 0, 0, 1, 18000, C("New_York")>>, FALSE),
     E("dt", "berlin_fold_dst", <<14, 2021, 10, 31, 2, 30, 0, 0, 0, 7200, C("Berlin")>>, FALSE),
     E("dt", "london_winter", <<14, 2021, 12, 1, 12, 0, 0, 0, 0, 0, C("London")>>, FALSE),
+    \* the last / first moments of the calendar in zones whose UTC equivalent lies beyond it
+    E("dt", "edge_max_honolulu", <<14, 9999, 12, 31, 23, 59, 59, 0, 1, 36000, C("Honolulu")>>, FALSE),
+    E("dt", "edge_min_brisbane", <<14, 1, 1, 1, 0, 0, 0, 0, 0, 36000, C("Brisbane")>>, FALSE),
     E("coord", "zero", <<15, 0, 0, 0, 0>>, FALSE), E("coord", "richmond", <<15, 0, 37545000, 1, 77449000>>, TRUE),
     E("coord", "max", <<15, 0, 90000000, 0, 180000000>>, FALSE), E("coord", "min", <<15, 1, 90000000, 1, 180000000>>, FALSE),
     E("coord", "tiny", <<15, 0, 1, 1, 1>>, FALSE), E("coord", "ints", <<15, 1, 27000000, 0, 153000000>>, FALSE) }
